@@ -274,6 +274,15 @@ impl<C: Config> DirtyWorker<C> {
             }
         }
 
+        // Release the strong references before the task signals completion:
+        // once the last task of a batch is done the caller may go on to drop
+        // the engine, and the database (whose drop flushes the write-behind
+        // pipeline) must not be kept alive by a worker that is merely on its
+        // way out of this function.
+        drop(database);
+        drop(statistic);
+        drop(dirtied_queries);
+
         drop(task);
     }
 }
